@@ -65,3 +65,34 @@ func ZZ_C18_Path_LLEN() {
 	})
 	zzAssert("no-crash", !out.Panicked)
 }
+
+// Strings whose content is given directly (normalisation is outside the claim): == is byte
+// equality, < is the bytewise order, hash input identical iff equal.
+//verif:harness property=C18 mode=bv unwind=80 lens=0..3
+func ZZ_C18_String_LLEN() {
+	ab := zzNondetBytes(LEN)
+	bb := zzNondetBytes(zzChoice(4))
+	a := &StringValue{Str: string(ab), length: -1}
+	b := &StringValue{Str: string(bb), length: -1}
+	same := zzSameBytes2(ab, bb)
+	// reference order: first differing byte decides, else the shorter string is smaller
+	n := len(ab)
+	if len(bb) < n {
+		n = len(bb)
+	}
+	less := len(ab) < len(bb)
+	for i := n - 1; i >= 0; i-- {
+		less = zzOr(zzAnd(ab[i] == bb[i], less), ab[i] < bb[i])
+	}
+	out := zzCatch(func() any {
+		zzAssert("equal", a.Equal(nil, b) == same)
+		zzAssert("less", bool(a.Less(nil, b)) == less)
+		zzAssert("less-equal", bool(a.LessEqual(nil, b)) == zzOr(less, same))
+		zzAssert("greater", bool(a.Greater(nil, b)) == zzAnd(!less, !same))
+		zzAssert("greater-equal", bool(a.GreaterEqual(nil, b)) == !less)
+		sl := 32 * zzChoice(2)
+		zzAssert("same-hash-input-iff-equal", zzSameBytes2(a.HashInput(nil, make([]byte, sl)), b.HashInput(nil, make([]byte, sl))) == same)
+		return nil
+	})
+	zzAssert("no-crash", !out.Panicked)
+}
